@@ -33,7 +33,7 @@ KindsUv   == {"tagged-count", "tagged-size"}                                    
 KindsVar  == {"record-length", "key-length", "value-length", "header-count", "header-key-length", "header-value-length"}  \* zig-zag varint
 LenKinds  == Kinds16 \cup Kinds32 \cup KindsUvB \cup KindsUv \cup KindsVar
 
-Classes == << "min", "-2", "-1", "0", "exact-1", "exact", "exact+1", "remain+1", "2^20", "max",
+Classes == << "min", "-2", "-1", "0", "exact-1", "exact", "exact+1", "exact+7", "exact+40", "remain+1", "2^20", "max",
               "uvarint-2^31", "uvarint-2^32", "uvarint-2^63", "uvarint-2^64-1", "varint-11-bytes", "varint-unterminated" >>
 
 \* explicit encodings of the values TLC's 32-bit integers cannot hold
@@ -67,6 +67,8 @@ ClassBytes(k, c, x, r) ==
       [] c = "exact-1"  -> Num(k, x - 1)
       [] c = "exact"    -> Num(k, x)
       [] c = "exact+1"  -> Num(k, x + 1)
+      [] c = "exact+7"  -> Num(k, x + 7)        \* past the enclosing element, still inside the enclosing set / frame
+      [] c = "exact+40" -> Num(k, x + 40)
       [] c = "remain+1" -> Num(k, r + 1)
       [] c = "2^20"     -> Num(k, 1048576)
       [] c = "max"      -> IF k \in Kinds16 \cup Kinds32 THEN Num(k, MaxOf(k))
